@@ -127,6 +127,18 @@ def blameDT (ext : Ext) (path : String) (dt : DataType) (nullable : Bool) (md : 
         let missingChild := blameMissing p cfs.toList keys
         let own := structOwnFails cfs.toList keys
         (if own || (inner.isEmpty && missingChild.isEmpty) then [p] else []) ++ inner ++ missingChild
+      -- a variant whose column is a list: the payload is a tuple presented to that column (`interpDT` reads it so);
+      -- the blame is the blame of the tuple AT the variant's column — inside the elements when one of them fails,
+      -- never the column (an ancestor) for an element's failure
+      | some (_, .mk cn (.list (.mk en edt enl emd)) _ _) | some (_, .mk cn (.largeList (.mk en edt enl emd)) _ _) =>
+        let p := path ++ "." ++ childName cn
+        let inner := blameAll ext (p ++ "." ++ childName en) edt enl emd xs
+        if inner.isEmpty then [p] else inner
+      | some (_, .mk cn (.fixedSizeList (.mk en edt enl emd) k) _ _) =>
+        let p := path ++ "." ++ childName cn
+        let inner := blameAll ext (p ++ "." ++ childName en) edt enl emd xs
+        let own := (xs.length : Int) != k
+        (if own || inner.isEmpty then [p] else []) ++ inner
       | some (_, .mk cn _ _ _) => [path ++ "." ++ childName cn, path]
       | none => [path]
     | _ => [path]
